@@ -87,8 +87,17 @@ def main():
             if rb.returncode != 0:
                 conflicted = sh(["git", "diff", "--name-only", "--diff-filter=U"], cwd=wt).stdout.split()
                 sh(["git", "rebase", "--abort"], cwd=wt)
-                print(f"{sid}: CONFLICT rebasing from {c[:7]} in {conflicted} - manual")
-                continue
+                # second attempt: apply the old patch to the new tree with fuzzy context matching
+                sh(["git", "checkout", "-q", "--detach", head], cwd=wt)
+                sh(["git", "reset", "-q", "--hard", head], cwd=wt)
+                fz = subprocess.run(["patch", "-s", "-p1", "--fuzz=3", "--no-backup-if-mismatch", "-i", p], cwd=wt, capture_output=True, text=True)
+                for junk in glob.glob(os.path.join(wt, "src", "ovld", "*.orig")) + glob.glob(os.path.join(wt, "src", "ovld", "*.rej")):
+                    os.remove(junk)
+                if fz.returncode != 0:
+                    sh(["git", "reset", "-q", "--hard", head], cwd=wt)
+                    print(f"{sid}: CONFLICT rebasing from {c[:7]} in {conflicted} - manual")
+                    continue
+                sh(["git", "-c", "user.email=a@b", "-c", "user.name=x", "commit", "-qam", sid + " (fuzzy)"], cwd=wt)
             new = sh(["git", "diff", head], cwd=wt).stdout
             passed, failed, tail = suite(wt)
             ok = passed == 143 and not failed
